@@ -38,7 +38,7 @@ ASSUME = [
 SCRIPT = r"""#!/bin/sh
 # generated preprocessor: behaviour comes from "$1.cfg"
 f="$1"
-exit_status=0; when=after; stderr_bytes=0; transform=cat; killme=0; cut=0
+exit_status=0; when=after; stderr_bytes=0; transform=cat; killme=0; cut=0; propagate=0
 [ -f "$f.cfg" ] && . "$f.cfg"
 emit_err() {
   if [ "$stderr_bytes" -gt 0 ]; then head -c "$stderr_bytes" /dev/zero | tr '\0' 'e' >&2; fi
@@ -47,6 +47,7 @@ out() {
   case "$transform" in
     upper) tr a-z A-Z < "$f" ;;
     prefix) sed 's/^/P:/' "$f" ;;
+    banner) echo "needle banner for $(basename "$f")"; cat "$f" ;;
     *) cat "$f" ;;
   esac
 }
@@ -58,14 +59,23 @@ finish() {
 case "$when" in
   before) finish ;;
   mid) out | head -c "$cut"; finish ;;
-  *) out; finish ;;
+  *) if [ "$propagate" = 1 ]; then
+       # a wrapper that hands on its command's status: 141 (no signal) when the
+       # reader went away early
+       out || { rc=$?; exit $rc; }
+     else
+       out
+     fi
+     finish ;;
 esac
 """
 
 WORD = b"needle"
 
 
-def transform(data, t):
+def transform(data, t, name=b""):
+    if t == "banner":
+        return b"needle banner for " + name + b"\n" + data
     if t == "upper":
         return bytes(c - 32 if 97 <= c <= 122 else c for c in data)
     if t == "prefix":
@@ -108,6 +118,10 @@ def pre_case(case, env):
         selected = not rng.chance(1, 4)
         name = "f%d.%s" % (i, "pp" if selected else "txt")
         body = gen_body(rng, rng.chance(1, 3))
+        if rng.chance(1, 8):
+            body = b""                      # an empty file is an input like any other
+        elif rng.chance(1, 10):
+            body = b"needle at the top\n" + gen_body(rng, True) * rng.range(4, 8)   # several pipe buffers
         with open(os.path.join(d, name), "wb") as f:
             f.write(body)
         info = {"name": name, "selected": selected, "body": body}
@@ -116,13 +130,14 @@ def pre_case(case, env):
                 e, k, w, s = picks[i]
             else:
                 e, k, w, s = matrix[(case["index"] * 10 + i) % len(matrix)]
-            t = rng.pick(["cat", "upper", "prefix"])
-            full = transform(body, t)
+            t = rng.pick(["cat", "upper", "prefix", "banner"])
+            full = transform(body, t, name.encode())
+            prop = 1 if (e == 0 and k == 0 and w == "after" and rng.chance(1, 2)) else 0
             cut = len(full) // 2
             with open(os.path.join(d, name + ".cfg"), "w") as f:
-                f.write("exit_status=%d\nwhen=%s\nstderr_bytes=%d\ntransform=%s\nkillme=%d\ncut=%d\n" % (e, w, s, t, k, cut))
+                f.write("exit_status=%d\nwhen=%s\nstderr_bytes=%d\ntransform=%s\nkillme=%d\ncut=%d\npropagate=%d\n" % (e, w, s, t, k, cut, prop))
             emitted = b"" if w == "before" else (full[:cut] if w == "mid" else full)
-            info.update({"exit": e, "killed": k, "when": w, "stderr": s, "transform": t, "emitted": emitted})
+            info.update({"exit": e, "killed": k, "when": w, "stderr": s, "transform": t, "emitted": emitted, "propagate": prop})
         else:
             info.update({"exit": 0, "killed": 0, "when": "after", "stderr": 0, "emitted": body})
         files.append(info)
